@@ -194,8 +194,11 @@ func c04(c *ctx) error {
 			g := &crashstore.Group{}
 			kind := "src-has"
 			switch {
+			case skip && r.Intn(3) == 0:
+				kind = "src-get-skip" // with skip-missing a failed read IS a skip, by design: the upload must still end
+				g.FailReadOp, g.FailReadAt = "get", 1+r.Intn(len(files)+1)
 			case !skip && r.Intn(3) == 0:
-				kind = "src-get" // with skip-missing a failed read IS a skip, by design: only without
+				kind = "src-get"
 				g.FailReadOp, g.FailReadAt = "get", 1+r.Intn(len(files)+1)
 			case r.Intn(3) == 0:
 				kind = "store-put"
@@ -209,7 +212,21 @@ func c04(c *ctx) error {
 				st2 = e2.Stores
 			}
 			b2 := corekit.NewBundle(st2, "r", src, uint32(leaf), "", core.ConcurrentFileUploads(upConc), core.SkipMissing(skip))
-			err2 := corekit.Recover(func() error { return core.VerifUpload(ctx, b2, uint(perFile), getKeys) })
+			var err2 error
+			done2 := make(chan error, 1)
+			go func() {
+				done2 <- corekit.Recover(func() error { return core.VerifUpload(ctx, b2, uint(perFile), getKeys) })
+			}()
+			hung := false
+			select {
+			case err2 = <-done2:
+			case <-time.After(20 * time.Second):
+				hung = true
+			}
+			if hung {
+				c.w.Op(fmt.Sprintf("uploadf keys=%s skip=%d fault=%s got=hang", keysArg, sk, kind), "sound")
+				continue
+			}
 			fired := (g.FailReadAt != 0 && g.Reads() >= g.FailReadAt)
 			for _, w := range g.Snapshot() {
 				if w.Err && !w.Landed && g.FailOnceAt != 0 {
@@ -274,6 +291,26 @@ func c04(c *ctx) error {
 				pred = func(s string) (bool, error) { return s == raw, nil }
 			}
 			err := corekit.Recover(func() error { return core.VerifPublish(ctx, db, uint(perFile), pred) })
+			inBundle := false
+			for _, en := range mb.BundleEntries {
+				if en.NameWithPath == raw {
+					inBundle = true
+				}
+			}
+			if kind == "name" && perFile == 1000 && err == nil && inBundle {
+				// the single-file download entry point (`bundle download file`) on a fresh Bundle object
+				// built from repo, id and stores only: same file, same bytes
+				var dst2 storage.Store = memstore.New("dest-file")
+				fb := corekit.NewBundle(e.Stores, "r", dst2, 0, b.BundleID)
+				ferr := corekit.Recover(func() error { return core.PublishFile(ctx, fb, raw) })
+				res := "err"
+				if ferr == nil {
+					got2, _ := corekit.SplitMeta(dst2.(*memstore.Store).Snapshot())
+					res = "ok files=" + c04ShowFiles(got2)
+				}
+				c.w.Op("download sel="+sel+" via=publishfile", res)
+				c.w.Count("download=publishfile")
+			}
 			if err != nil {
 				c.w.Op("download sel="+sel, "err")
 			} else {
